@@ -68,6 +68,7 @@ class FnSpec:
         self.pure = kw.get('pure', False)
         self.telescope = kw.get('telescope')    # local variable holding chunk boundaries (hint for flattening)
         self.functional = kw.get('functional', False)   # result is a function of `reads` (+ scalar args): canonical term
+        self.functional_props = tuple((kw.get('functional_props') or '').split())
         self.varies = list(kw.get('varies') or [])      # objects whose learned state must not influence the result
         self.reads = kw.get('reads')            # read set of a pure method (its result is a function of it)
         self.self_cls = kw.get('self_cls')      # verify the body for these receiver classes (default: defining class)
